@@ -114,6 +114,11 @@ def gen_container(rng, prefixes, nrec):
             v = gen_value(rng, prefixes)
             if rng.random() < 0.25:
                 v = [v] if rng.random() < 0.4 else [v, gen_value(rng, prefixes)]
+            elif rng.random() < 0.06:
+                # the same URI as an xsd:anyURI value and as a qualified name
+                pfx = rng.choice(prefixes)
+                uri = dict(NS_POOL)[pfx] + "same"
+                v = [{"$": uri, "type": "xsd:anyURI"}, {"$": pfx + ":same", "type": "prov:QUALIFIED_NAME"}]
             rec[an] = v
         slot = c.setdefault(kind, {})
         if ident in slot:
